@@ -117,3 +117,10 @@ Print Assumptions c20_model_json_spec.
 Theorem c20_unescape_total : forall cl w content, unescape cl w content <> UFuel.
 Proof. exact unescape_total. Qed.
 Print Assumptions c20_unescape_total.
+
+(* ---- the correspondence run also drives wchar_t (kind 5): it takes one of the three
+        modelled code paths, the one of its size on this platform (generated table) ---- *)
+
+Theorem c20_wchar_width : validw (c20_width 5) /\ c20_width 1 = 1 /\ c20_width 2 = 2 /\ c20_width 4 = 4.
+Proof. split; [exact wchar_width_valid|exact width_kinds]. Qed.
+Print Assumptions c20_wchar_width.
